@@ -58,7 +58,7 @@ func (s c03Shape) docs() []refdb.Doc {
 		if i%2 == 1 {
 			toks = append(toks, refdb.Tok{F: "g", V: fmt.Sprintf("g%d", i%3)})
 		}
-		docs[i] = refdb.Doc{ID: id, Body: fmt.Sprintf(`{"i":%d,"b":"%s"}`, i, strings.Repeat("x", (i*11)%40)), Toks: toks}
+		docs[i] = refdb.Doc{ID: id, Body: fmt.Sprintf(`{"i":%d,"b":"%s"}`, i, vfrac.Pad((i*11)%40)), Toks: toks}
 	}
 	// dictionary tokens in field d, token j on doc j%N
 	for j := 0; j < s.Dict; j++ {
@@ -216,7 +216,20 @@ func init() {
 }
 
 // answer executes one request on one form and returns a canonical answer string.
-func answer(f frac.Fraction, docs []refdb.Doc, req c03Req) (string, error) {
+// answer runs one request on one fraction form; a panic in the store code is an answer too (an error), so
+// that it is reported with its shape and request instead of killing the run.
+func answer(f frac.Fraction, docs []refdb.Doc, req c03Req) (res string, err error) {
+	if p := vlib.Catch(func() { res, err = answer0(f, docs, req) }); p != nil {
+		msg := fmt.Sprint(p)
+		if i := strings.IndexByte(msg, '\n'); i > 0 {
+			msg = msg[:i]
+		}
+		return "", fmt.Errorf("panic: %s", msg)
+	}
+	return res, err
+}
+
+func answer0(f frac.Fraction, docs []refdb.Doc, req c03Req) (string, error) {
 	switch req.Kind {
 	case "search", "hist", "agg":
 		pq := c03Queries[req.Query]
